@@ -62,8 +62,9 @@ def cases(shard, tier):
             yield ["like", la, fn, dt]
     if la and max(la) > 0:
         for side in ("left", "right"):
-            for fill in (0, -1):
+            for fill in (0, -1, None):       # None: the default fill value (zero)
                 yield ["padded", la, side, fill]
+        yield ["padded", la, None, None]    # all defaults: zeros on the right
     size = sum(la)
     for bits in itertools.product([0, 1], repeat=size):
         yield ["mask", la, list(bits)]
@@ -151,11 +152,17 @@ def check(case, acc):
         m = max(la)
         if side == "left":
             acc.feature("padded_left")
-        exp = A([(r + [fill] * (m - len(r))) if side == "right" else ([fill] * (m - len(r)) + r) for r in rows], shape=(len(la), m))
+        kw = {}
+        if fill is not None:
+            kw["fill_value"] = fill
+        if side is not None:
+            kw["side"] = side
+        fv, sd = (0 if fill is None else fill), (side or "right")
+        exp = A([(r + [fv] * (m - len(r))) if sd == "right" else ([fv] * (m - len(r)) + r) for r in rows], shape=(len(la), m))
         x = _ra(rows)
         twin = x + 0                       # shares its geometry with x
-        _cmp(acc, f"as_padded_matrix({side})", exp, observe(lambda: x.as_padded_matrix(fill_value=fill, side=side)))
-        _cmp(acc, f"as_padded_matrix({side}) again", exp, observe(lambda: x.as_padded_matrix(fill_value=fill, side=side)))
+        _cmp(acc, f"as_padded_matrix({side})", exp, observe(lambda: x.as_padded_matrix(**kw)))
+        _cmp(acc, f"as_padded_matrix({side}) again", exp, observe(lambda: x.as_padded_matrix(**kw)))
         _cmp(acc, "operand after padding", R(rows), observe(lambda: x))
         _cmp(acc, "array sharing the operand's geometry after padding", R(rows), observe(lambda: twin))
     elif kind == "mask":
